@@ -1,6 +1,6 @@
 (* Properties/C13.v — accuracy-driven hit results are the closest achievable to the target *)
 From Coq Require Import ZArith List Bool Floats.
-From V Require Import F64 Gradual GenState OptCheck OptSmall.
+From V Require Import OptTwin OptTwinProofs F64 Gradual GenState OptCheck OptSmall.
 Import ListNotations.
 Open Scope Z_scope.
 
@@ -23,3 +23,26 @@ Print Assumptions C13_osu_small.
 (* mania's generate_state is not modelled: C13 for mania is decided by the brute-force
    oracle on the implementation only (exhaustive on the same small domain in the thorough
    tier).  Optimality for unbounded sizes in exact arithmetic (the opt_exact lemmas of DESIGN.md) is not proved. *)
+
+(* ---- unbounded: the one-dimensional searches (taiko: 300s vs 100s; catch: tiny droplets) ----
+   For EVERY object count, miss count and target accuracy a/b, no other distribution is closer to
+   the target than the exact twin's choice (the better of the clamped floor and ceil of the exact
+   estimate, floor first).  The twin is tied to the implementation on every recorded
+   accuracy-only taiko / catch trace: the implementation's choice is as close as the twin's up
+   to 1e-12 (tools/m_gs.py twin_run). *)
+Theorem C13_nearest_optimal : forall p q R y : Z, 0 < q -> 0 <= R -> 0 <= y <= R ->
+  Z.abs (p - nearest p q R * q) <= Z.abs (p - y * q).
+Proof. exact nearest_optimal. Qed.
+Print Assumptions C13_nearest_optimal.
+
+Theorem C13_taiko_any_size : forall T m a b y : Z, 0 < T -> 0 <= m <= T -> 0 < b -> 0 <= y <= T - m ->
+  0 <= taiko_twin T m a b <= T - m /\
+  taiko_dist T m a b (taiko_twin T m a b) <= taiko_dist T m a b y.
+Proof. exact taiko_twin_optimal. Qed.
+Print Assumptions C13_taiko_any_size.
+
+Theorem C13_catch_any_size : forall fd at_ m a b y : Z, 0 <= fd -> 0 <= at_ -> 0 <= m -> 0 < b -> 0 <= y <= at_ ->
+  0 <= catch_twin fd at_ m a b <= at_ /\
+  catch_dist fd at_ m a b (catch_twin fd at_ m a b) <= catch_dist fd at_ m a b y.
+Proof. exact catch_twin_optimal. Qed.
+Print Assumptions C13_catch_any_size.
